@@ -39,7 +39,8 @@ def norm(s):
     return " ".join(s.replace("\u00a0", " ").split())
 
 
-WORDS = ["alpha", "beta", "R&D", "x<y", "a>b", "\"q\"", "it's", "&amp;", "&lt;", "<i>", "5", "ok.", "émigré", "—", "100%", "a;b", "#1"]
+WORDS = ["alpha", "beta", "R&D", "x<y", "a>b", "\"q\"", "it's", "&amp;", "&lt;", "<i>", "5", "ok.", "émigré", "—", "100%", "a;b", "#1",
+         "&apos;", "&quot;", "&nbsp;", "&#39;", "&#x27;", "&copy;", "&amp;lt;", "&gt", "AT&T;"]
 
 
 def authored(rng):
@@ -110,6 +111,7 @@ def bounded(ctx, b):
         # ---- WebVTT
         vt = ["WEBVTT", ""]
         voice = rng.choice([None, "Bob", "Mary Ann"])
+        vclass = rng.choice(["", "", ".loud", ".first.loud", ".a.b.c"])
         for j, lines in enumerate(cues):
             vt.append(f"00:0{j + 1}.000 --> 00:0{j + 2}.000")
             for k, ln in enumerate(lines):
@@ -117,7 +119,7 @@ def bounded(ctx, b):
                 txt = wrap_words(rng, words, *rng.choice([("<i>", "</i>"), ("<b>", "</b>"), ("<c.yellow>", "</c>"), ("<u>", "</u>"),
                                                           ("<ruby>", "</ruby>"), ("<lang en>", "</lang>"), ("<00:01.500>", ""), ("", "")]), False)
                 if voice and k == 0:
-                    txt = f"<v {voice}>{txt}"
+                    txt = f"<v{vclass} {voice}>{txt}"
                 vt.append(txt)
             vt.append("")
         webvtt = "\n".join(vt)
@@ -168,6 +170,31 @@ def bounded_webvtt_decode(ctx, b):
                     nontrivial=("&" in s or "<" in s), sample=s if s == "&lt;" else None)
 
 
+def bounded_webvtt_tags(ctx, b):
+    """tag-shaped cue text: every known tag name with no / one / several classes and with an annotation, voice
+    tags, and unknown tags whose names extend a known one (they stay literal)"""
+    r = WebVTTReader()
+    known = ["c", "i", "b", "u", "ruby", "rt", "lang"]
+    unknown = ["cat", "br", "b-roll", "v-neck", "i/o", "c#", "u+1", "rt:x", "vv", "langx", "img"]
+    suffixes = ["", ".x", ".x.y", " Bob", ".x Bob", ".x.y Bob", "\tBob"]
+    for name in known + unknown + ["v"]:
+        for suf in suffixes:
+            for close in (True, False):
+                tag = f"<{name}{suf}>"
+                text = f"say {tag}hello" + (f"</{name}>" if close else "") + " &amp; bye"
+                if name == "v":
+                    m = re.fullmatch(r"(?:\.[^\s.>]+)*[ \t](.*)", suf)
+                    exp = f"say {m.group(1)}: hello &amp; bye".replace("&amp;", "&") if m else f"say hello & bye"
+                    if not m and suf and not suf.startswith("."):
+                        exp = f"say {tag}hello & bye"
+                elif name in known:
+                    exp = "say hello & bye"
+                else:
+                    exp = f"say {tag}hello" + (f"</{name}>" if close else "") + " & bye"
+                b.guard(("tag", text), lambda text=text, exp=exp: (r._decode(text) == exp, {"cue_text": text, "decoded": r._decode(text), "expected": exp}),
+                        sample=text if name == "b-roll" and suf == "" and close else None)
+
+
 def _vtt_once(s):
     ent = {"amp": "&", "lt": "<", "gt": ">", "lrm": "\u200e", "rlm": "\u200f", "nbsp": "\u00a0"}
     return re.sub(r"&(amp|lt|gt|lrm|rlm|nbsp);", lambda m: ent[m.group(1)], s)
@@ -178,6 +205,9 @@ def run(ctx):
     ctx.bounded("webvtt_decode", "WebVTTReader._decode on every string up to length 4 (thorough: 5) over & ; a m p l t g < > / i v "
                 "space x against the cue-text rules (voice tag -> 'Name: ', known tags vanish, unknown tags literal, each "
                 "reference decoded once)", lambda b: bounded_webvtt_decode(ctx, b), exhaustive=True)
+    ctx.bounded("webvtt_tags", "tag-shaped WebVTT cue text: every known tag name with no / one / several classes and with an "
+                "annotation, voice tags with 0-2 classes, unknown tags whose names extend a known one: voice -> 'Name: ', "
+                "known tags vanish, unknown tags stay literal", lambda b: bounded_webvtt_tags(ctx, b), exhaustive=True)
     ctx.bounded("linebreak_next_to_inline", "DFXP / SAMI paragraph 'one\\n <i>two</i>\\n <i>three</i>\\n four'",
                 lambda b: bounded_linebreak_next_to_inline(ctx, b))
     ctx.bounded("documents", "documents generated from an abstract caption model by independent serialisers for the five text "
